@@ -505,6 +505,17 @@ SUBCHECKS = {
                                                                                         'style': st.integers(0, 5)}),
                                 examples={'quick': 150, 'thorough': 3000},
                                 note='hand-shaped well-formed families (see C12 schemas-templated): they must compile, load and answer'),
+    'valid-fixed': SubCheck(run_valid, enumerate=lambda tier: [
+        {'schema': {'rules': rules}, 'style': style} for style in range(6) for rules in (
+            [],
+            # a temporary rule is the only one that refers to another rule (upper- and lower-case identifiers sort differently)
+            [{'id': '#KEY', 'name': [{'lit': 'K'}, {'pat': '_'}], 'cons': [], 'sign': []},
+             {'id': '#_t', 'name': [{'lit': 'a'}, {'ref': '#KEY'}], 'cons': [], 'sign': []},
+             {'id': '#r0', 'name': [{'lit': 'b'}, {'pat': 'x'}], 'cons': [], 'sign': ['#KEY']}],
+            [{'id': '#key', 'name': [{'lit': 'K'}, {'pat': '_'}], 'cons': [], 'sign': []},
+             {'id': '#_t', 'name': [{'lit': 'a'}, {'ref': '#key'}], 'cons': [], 'sign': []},
+             {'id': '#Z', 'name': [{'lit': 'b'}, {'pat': 'x'}], 'cons': [], 'sign': ['#key']}],
+        )], exhaustive={'quick': True, 'thorough': True}, note='a few fixed valid schemas: empty, temporary rule as the only referrer'),
     'valid-large': SubCheck(run_valid_large, strategy=lambda tier: st.fixed_dictionaries({
         'n_rules': st.integers(70, 150), 'width': st.integers(1, 4), 'style': st.integers(0, 5),
         'probe': st.lists(st.integers(0, 200), min_size=2, max_size=5)}), examples={'quick': 24, 'thorough': 400},
